@@ -360,3 +360,19 @@ theorem canonicalize_molecule_spec {env : DepEnv} (hb : BlissPermLawful env) (fu
   rw [this] at p; exact p
 
 end Contracts.Relabel
+
+#print axioms Contracts.Relabel.sort_molecule_by_label_spec
+#print axioms Contracts.Relabel.permute_molecule_aux_spec
+#print axioms Contracts.Relabel.permute_molecule_spec
+#print axioms Contracts.Relabel.permute_molecule_rng_irrelevant
+#print axioms Contracts.Relabel.partition_molecule_by_attribute_frame
+#print axioms Contracts.Relabel.refine_partitions_frame
+#print axioms Contracts.Relabel.canonicalize_molecule_spec
+#print axioms Py.Graph.relabelCopy_spec
+#print axioms Py.Graph.isRelabel_relabelCopy
+#print axioms Py.Graph.numberOfEdges_relabelCopy
+#print axioms Py.Graph.convertNodeLabelsToIntegers_spec
+#print axioms Py.Graph.copy_spec
+#print axioms Py.Graph.same_copy
+#print axioms Py.Graph.WF_addEdge
+#print axioms Py.Dict.get?_ofPairs_zip
